@@ -14,8 +14,8 @@ def run(ctx):
     c = sc.consts("ibgp", {"ok", "idOurs"}, {"annAB", "wdAannB"}, {"badMarker"}, {"ManualStop", "Notification"}, 6)
     behs += sc.run_family(ctx, "ibgp", c, 3000 if big else 300)
     # time passes without events: nothing may happen (the hold timer of OpenSent is a large one)
-    c = sc.consts("ebgp", {"ok", "hold0"}, {"annA"}, set(), {"Wait", "Notification"}, 6)
-    behs += sc.run_family(ctx, "quiet periods", c, 400 if big else 40)
+    c = sc.consts("ebgp", {"ok", "hold0"}, {"annA"}, set(), {"Wait"}, 6, sessions=1)
+    behs += sc.run_family(ctx, "quiet periods", c, 400 if big else 60, allpaths=True)
     c = sc.consts("hold3", {"hold3", "ok"}, {"annA"}, set(), {"WriteFails", "HoldExpires"}, 6)
     behs += sc.run_family(ctx, "hold3 (keepalive write failure)", c, 2000 if big else 150)
     ctx.rule = ("one witness per transition of the BGPFSM graph (every event - OPEN classes, KEEPALIVE, UPDATE classes, NOTIFICATION, "
